@@ -1,0 +1,37 @@
+//go:build verif
+
+package geom
+
+import "fmt"
+
+// VerifCheck runs the library's own unexported structural invariant check
+// (verify) on g, recursing into collections. It exists only for the runtime
+// monitors in /verif, which use it as a second opinion next to their own
+// well-formedness checker.
+func VerifCheck(g T) error {
+	switch g := g.(type) {
+	case *Point:
+		return g.verify()
+	case *LineString:
+		return g.verify()
+	case *LinearRing:
+		return g.verify()
+	case *Polygon:
+		return g.verify()
+	case *MultiPoint:
+		return g.verify()
+	case *MultiLineString:
+		return g.verify()
+	case *MultiPolygon:
+		return g.verify()
+	case *GeometryCollection:
+		for i, m := range g.geoms {
+			if err := VerifCheck(m); err != nil {
+				return fmt.Errorf("member %d: %w", i, err)
+			}
+		}
+		return nil
+	default:
+		return fmt.Errorf("geom: VerifCheck: unsupported type %T", g)
+	}
+}
